@@ -106,7 +106,7 @@ def run_general(ctx, fields, what, n_fake, n_real, gen=None, rule="", names_mix=
                 a2 = ["--names=" + rng.choice(["none", "hash"])] + a2
                 names = "none" not in a2[0]
             one_case(eng, res, sc, a2, opts, explicit, order, fields, what, real=(it >= n_fake), names=names,
-                     sample=(it % 37 == 0), packed=(rng.random() < 0.3), pack_refs=(rng.random() < 0.3))
+                     sample=(it % 37 == 0), packed=STORAGE[it % len(STORAGE)] if it >= n_fake else False, pack_refs=(rng.random() < 0.3))
             if it % 3 == 0:
                 twin_cases(eng, res, sc, rng, fields, what)
         tiny_cases(eng, res, fields, what, rng)
@@ -118,6 +118,38 @@ def run_general(ctx, fields, what, n_fake, n_real, gen=None, rule="", names_mix=
                        "this contract (contract_b) is evaluated on every enumeration used, real or generated",
                        "reference selection for the scenarios uses an independent python statement of the prefix rules"]
     return res
+
+
+# how the objects of a real repository are stored, cycled through by the real-git runs of every scan check
+STORAGE = [False, True, "partial", False, "bitmap", "GIT_ALTERNATE_OBJECT_DIRECTORIES", False, "bitmap+loose", "objects/info/alternates",
+           True, "GIT_OBJECT_DIRECTORY"]
+
+ENV_VARIANTS = [
+    {"LC_ALL": None, "LANG": None, "LC_NUMERIC": None, "LC_CTYPE": None},            # no locale at all
+    {"LC_ALL": None, "LANG": "de_DE.UTF-8"}, {"LC_ALL": "de_DE.UTF-8"}, {"LC_ALL": None, "LC_NUMERIC": "fr_FR@euro", "LANG": "en_US.UTF-8"},
+    {"LC_ALL": None, "LANG": "en_US.ISO-8859-1"}, {"LC_ALL": "C.UTF-8"}, {"LC_ALL": "POSIX"}, {"LC_ALL": None, "LC_CTYPE": "ja_JP.eucJP", "LANG": "pt_BR"},
+    {"LC_ALL": "en_US.UTF-8", "LANGUAGE": "de:fr"}, {"TERM": "dumb"}, {"TERM": "xterm-256color", "COLUMNS": "40", "LINES": "10"},
+    {"NO_COLOR": "1"}, {"TZ": "Asia/Tokyo"}, {"HOME": "/"}, {"USER": None, "LOGNAME": None}, {"TMPDIR": "/nonexistent"},
+]
+
+
+def env_invariance(eng, res, sc, order, what, fmts=(["-v", "--no-progress"], ["--json", "--no-progress"], ["--json", "--json-version=2", "--no-progress"])):
+    """The report is a function of the repository and the options: the same bytes under any locale, terminal or time zone
+    (the run under the harness's own environment is the one compared with the model elsewhere)."""
+    n = 0
+    for fmt in fmts:
+        rc0, out0, err0, _ = eng.run_fake(sc, order, [], [], extra_args=fmt)
+        for ev in ENV_VARIANTS:
+            rc, out, err, _ = eng.run_fake(sc, order, [], [], extra_args=fmt, env=ev)
+            res.case((what, tuple(fmt), tuple(sorted((k, str(v)) for k, v in ev.items()))), True)
+            n += 1
+            if rc != rc0 or out != out0:
+                dl = [(a, b) for a, b in zip(out0.split(b"\n"), out.split(b"\n")) if a != b][:2]
+                res.violations.append(vlib.Violation("%s: the report depends on the environment of the run" % what,
+                                                     {"args": fmt, "environment": {k: v for k, v in ev.items()}, "scenario": what},
+                                                     expected={"rc": rc0, "first differing lines": [a.decode("latin1") for a, _ in dl]},
+                                                     observed={"rc": rc, "first differing lines": [b.decode("latin1") for _, b in dl], "stderr": err[:200].decode("latin1")}))
+    res.coverage_extra["environment_variant_runs"] = res.coverage_extra.get("environment_variant_runs", 0) + n
 
 
 def twin_cases(eng, res, sc, rng, fields, what):
